@@ -22,6 +22,10 @@ modes
   eol        append to the end of the anchor line
   prebrace   insert before the last '{' of the anchor line (loop contracts)
   presemi    insert before the last ';' of the anchor line (do-while contracts)
+  extract    do not insert anything: copy a SECTION of the function verbatim into <out>/extract/<name>.inc so that a
+             harness can run those very lines with symbolic context (the directive's body is the name).  The section
+             starts at the anchor line and ends at its matching closing brace (anchor line ends in '{') or after
+             lines=N lines.  Everything else of the function is dropped -- the harness states its context assumptions.
   wrapret    anchor line is 'return EXPR;': becomes 'return (GHOST, EXPR);' --
              the only safe way to attach a ghost expression to a return that is
              the brace-less body of an if
@@ -58,7 +62,7 @@ def parse_spec(path):
                     raise WeaveError(f'{path}:{ln}: bad directive: {line!r}')
                 opts = dict(kv.split('=') for kv in m.group(3).split())
                 cur = dict(func=m.group(1), mode=m.group(2), anchor=(m.group(4) or '').strip(),
-                           nth=int(opts.get('nth', 0)), ord=int(opts.get('ord', 0)),
+                           nth=int(opts.get('nth', 0)), ord=int(opts.get('ord', 0)), lines=int(opts.get('lines', 0)),
                            text=[], where=f'{path}:{ln}')
             elif line.strip() == '' or line.lstrip().startswith('#'):
                 continue
@@ -119,6 +123,7 @@ def weave_file(src_path, spec_items):
     for l in lines:
         offs.append(offs[-1] + len(l))
     inserts = []  # (offset, seq, text)
+    extracts = {}
     for seq, it in enumerate(spec_items):
         text = ''.join(it['text'])
         mode = it['mode']
@@ -161,6 +166,26 @@ def weave_file(src_path, spec_items):
             raise WeaveError(f'{it["where"]}: anchor {it["anchor"]!r} matched {len(hits)} lines in {it["func"]}')
         line = lines[idx]
         body = line.rstrip('\n')
+        if mode == 'extract':
+            name = text.strip()
+            if not re.match(r'^[A-Za-z0-9_]+$', name):
+                raise WeaveError(f'{it["where"]}: extract needs a plain name as its body')
+            if body.rstrip().endswith('{'):
+                depth, j = 0, idx
+                while j <= cb:
+                    depth += lines[j].count('{') - lines[j].count('}')
+                    if depth == 0:
+                        break
+                    j += 1
+                if j > cb:
+                    raise WeaveError(f'{it["where"]}: extract: unbalanced braces')
+                last = j
+            elif it.get('lines'):
+                last = idx + it['lines'] - 1
+            else:
+                raise WeaveError(f'{it["where"]}: extract needs a block anchor or lines=N')
+            extracts[name] = ''.join(lines[idx:last + 1])
+            continue
         if mode in ('before', 'after'):
             # guard: the anchor line must not be the brace-less body of a control statement,
             # and (for 'after') must not itself be a brace-less control header
@@ -220,7 +245,7 @@ def weave_file(src_path, spec_items):
     stripped.append(woven[p:])
     if ''.join(stripped) != data:
         raise WeaveError(f'{src_path}: strip check failed')
-    return woven, len(inserts)
+    return woven, len(inserts), extracts
 
 
 def weave_tree(repo_src, spec_dir, out_src):
@@ -237,9 +262,14 @@ def weave_tree(repo_src, spec_dir, out_src):
         if not os.path.exists(sp):
             raise WeaveError(f'spec {f}: no source file {sp}')
         items = parse_spec(os.path.join(spec_dir, f))
-        woven, n = weave_file(sp, items)
+        woven, n, extracts = weave_file(sp, items)
         with open(os.path.join(out_src, target), 'wb') as fh:
             fh.write(woven.encode('latin-1'))
+        if extracts:
+            os.makedirs(os.path.join(out_src, 'extract'), exist_ok=True)
+            for name, txt in extracts.items():
+                with open(os.path.join(out_src, 'extract', name + '.inc'), 'wb') as fh:
+                    fh.write(txt.encode('latin-1'))
         report[target] = n
     return report
 
